@@ -97,3 +97,52 @@ OU(4, shp<2>, shp<5>) OU(4, shp<3>, shp<4>) OU(4, shp<2>, shp<2 COMMA 5>) OU(4, 
 #ifdef VERIF_THOROUGH
 OU(8, shp<2>, shp<9>) OU(8, shp<2>, shp<2 COMMA 2 COMMA 17>) OU(4, shp<3>, shp<2 COMMA 3 COMMA 2 COMMA 5>) OU(4, shp<2 COMMA 3 COMMA 2>, shp<2 COMMA 7>)
 #endif
+
+// ---- reduction_2d_enumerator (one reduction axis): every input element is accumulated exactly once, into the output position that
+// has the same coordinates with the reduced coordinate dropped; packs stay inside input and output.
+template <size_t N, class S, size_t AX>
+void ob_c12_reduction()
+{
+    constexpr size_t D = S::rank; constexpr auto ish = S::value; constexpr size_t TOTAL = S::numel;
+    std::array<size_t,D> osh{}; for (size_t i = 0; i < D; i++) osh[i] = (i == AX ? 1 : ish[i]);     // keepdims form
+    constexpr size_t NOUT = TOTAL / ish[AX];
+    constexpr long tag = (long)(TOTAL * 100 + D * 10 + AX);
+    constexpr bool HORIZ = (AX == D - 1);
+    const auto en = [&](){
+        if constexpr (HORIZ) return ix::reduction_2d_enumerator(meta::as_type_v<ix::ReductionKind::HORIZONTAL>, meta::as_type_v<N>, osh, ish, AX);
+        else return ix::reduction_2d_enumerator(meta::as_type_v<ix::ReductionKind::VERTICAL>, meta::as_type_v<N>, osh, ish, AX);
+    }();
+    // number of steps of the 2-d form: rows x (packs per row)
+    constexpr size_t ROWS = HORIZ ? TOTAL / ish[D-1] : [&](){ size_t r = 1; for (size_t i = 0; i <= AX; i++) r *= ish[i]; return r; }();
+    constexpr size_t COLS = TOTAL / ROWS;
+    constexpr size_t STEPS = ROWS * (HORIZ ? (COLS / N + (COLS % N ? 1 : 0)) : (COLS / N + COLS % N));
+    OBLIGE("C12.reduction.number_of_steps", (size_t)en.size() == STEPS, N, tag, HORIZ);
+    size_t covered[TOTAL] = {};
+    for_<STEPS>([&](auto I){
+        const auto step = en[I.value];
+        const auto [otag, oidx] = nm::at(step, 0); const auto [itag, iidx] = nm::at(step, 1);
+        const int it = (int)itag;
+        OBLIGE("C12.reduction.input_tag", it == (int)SIMD::PACKED || it == (int)SIMD::SCALAR || (it >= 1 && it < (int)N), N, tag, HORIZ);
+        const size_t lanes = it == (int)SIMD::PACKED ? N : (it == (int)SIMD::SCALAR ? 1 : N - (size_t)it);
+        OBLIGE("C02.reduction.input_inside|C12.reduction.input_inside", (size_t)iidx + lanes <= TOTAL, N, tag, HORIZ);
+        const bool out_packed = (int)otag == (int)SIMD::ACCUMULATE_PACKED;
+        OBLIGE("C02.reduction.output_inside|C12.reduction.output_inside", (size_t)oidx + (out_packed ? N : 1) <= NOUT, N, tag, HORIZ);
+        if (out_packed) OBLIGE("C12.reduction.packed_accumulate_reads_a_full_pack", it == (int)SIMD::PACKED, N, tag, HORIZ);
+        for (size_t k = 0; k < lanes; k++) {
+            const size_t q = (size_t)iidx + k;
+            if (q < TOTAL) covered[q]++;
+            // expected output position: the coordinates of q with coordinate AX dropped (C order)
+            size_t rem = q, expect = 0, mul = 1; size_t coord[D] = {};
+            for (size_t d = D; d-- > 0;) { coord[d] = rem % ish[d]; rem /= ish[d]; }
+            for (size_t d = D; d-- > 0;) { if (d != AX) { expect += coord[d] * mul; mul *= ish[d]; } }
+            OBLIGE("C12.reduction.element_goes_to_its_output_position", (size_t)oidx + (out_packed ? k : 0) == expect, N, tag, HORIZ);
+        }
+    });
+    for_<TOTAL>([&](auto P){ OBLIGE("C12.reduction.every_input_element_exactly_once", covered[P.value] == 1, N, tag, HORIZ, P.value); });
+}
+#define RD(N,S,AX) template void ob_c12_reduction<N,S,AX>();
+RD(4, shp<5>, 0) RD(4, shp<9>, 0) RD(4, shp<2 COMMA 5>, 0) RD(4, shp<2 COMMA 5>, 1) RD(4, shp<3 COMMA 4>, 0) RD(4, shp<3 COMMA 9>, 1)
+RD(4, shp<2 COMMA 3 COMMA 5>, 0) RD(4, shp<2 COMMA 3 COMMA 5>, 1) RD(4, shp<2 COMMA 3 COMMA 5>, 2) RD(4, shp<2 COMMA 2 COMMA 9>, 1)
+#ifdef VERIF_THOROUGH
+RD(8, shp<2 COMMA 9>, 0) RD(8, shp<2 COMMA 17>, 1) RD(4, shp<2 COMMA 2 COMMA 2 COMMA 5>, 1) RD(4, shp<2 COMMA 2 COMMA 2 COMMA 5>, 2) RD(8, shp<3 COMMA 2 COMMA 9>, 1)
+#endif
